@@ -437,3 +437,6 @@ func post_Shuffle_crypt_calls(c *Shuffle, data []byte, old_data []byte, res0 err
 			return nonce[2*i] == old_data[0]^c.nonce[2*i] && nonce[2*i+1] == old_data[1]^c.nonce[2*i+1]
 		}) && data[0] == old_data[0] && data[1] == old_data[1]
 }
+
+// Salsa.box itself could not be put under the same kind of contract: its setup slices array FIELDS (nonce[:],
+// hNonce[:]), which the verifier's memory model does not cover ("slice of pointer kind struct"): it stays ASSUMED.
